@@ -369,9 +369,12 @@ def summ (F : Fn K) (halfPi : K) (north : Bool) (e : Edge K) : ES K :=
 def lonIncrement (F : Fn K) (a b : V3 K) : K :=
   F.atan2 (a.x * b.y - a.y * b.x) (a.x * b.x + a.y * b.y)
 
-/-- sum of the longitude increments of the edges -/
+/-- the point lies on the polar axis (within `ERROR_TOLERANCE`): a node on a pole -/
+def onAxis (F : Fn K) (a : V3 K) : Bool := decide (F.sqrt (a.x * a.x + a.y * a.y) ≤ F.tol)
+
+/-- sum of the longitude increments of the edges; an edge that ends on the axis has none -/
 def winding (F : Fn K) (edges : List (Edge K)) : K :=
-  edges.foldl (fun s e => s + lonIncrement F e.a e.b) 0
+  edges.foldl (fun s e => s + (if onAxis F e.a || onAxis F e.b then 0 else lonIncrement F e.a e.b)) 0
 
 /-- the corners are listed counter-clockwise seen from outside: the area vector `Σ aᵢ × bᵢ` points
     to the same side as the corner sum -/
